@@ -287,6 +287,20 @@ void vp_c13_macros(bool expect, vp_obs& o)
   o.y = r ? r->is_saturated() : -1;
   o.extra = 0;
 }
+// C17 through the API: a live tracer object and an accepted call of a two-parameter mock function
+void vp_c17_trace(int x, int y, vp_obs& o)
+{
+  vp_M2 m;
+  ALLOW_CALL(m, p(trompeloeil::_, trompeloeil::_));
+  o.ret = 0;
+  {
+    vp_tracer t;
+    m.p(x, y);
+    o.ret = 1;
+  }
+  m.p(y, x);          // no tracer is alive any more: nothing is traced
+  o.x = x; o.y = y; o.extra = 0;
+}
 void vp_build_objects()
 {
   vp_M m; trompeloeil::sequence s;
